@@ -13,6 +13,7 @@ and `AppendFieldToCol`:
                                 ts    = decimal int64, or `now` when the line carries none
 -/
 import OG.C06.Model
+import OG.C06.Store
 
 namespace OG.C06
 
@@ -61,25 +62,137 @@ def showStored (r : StoredRow) : String :=
     | some t => toString t
   hexEncode r.name ++ " " ++ tags ++ " " ++ fields ++ " " ++ ts
 
-def step (line : String) : String :=
+def leStr (a b : String) : Bool := !(b < a)
+
+def tyChar : Ty → String
+  | .int => "i" | .float => "f" | .bool => "b" | .str => "s" | .tag => "t"
+
+def showCell : Cell → String
+  | .null => "-"
+  | .val v => showFVal v
+
+/-- canonical dump of one measurement as a client reads it: `name cols rows`, rows ordered by
+(time, text). -/
+def showTable (m : Mst) : String :=
+  let rows := selectAll m
+  if rows.isEmpty then hexEncode m.name ++ " - -"
+  else
+    let cols := ",".intercalate ((columns m).map fun c => hexEncode (jsonText c.1) ++ ":" ++ tyChar c.2)
+    let texts := rows.map fun r => (r.1, toString r.1 ++ ":" ++ ",".intercalate (r.2.map showCell))
+    let sorted := texts.mergeSort fun a b => a.1 < b.1 || (a.1 == b.1 && leStr a.2 b.2)
+    hexEncode m.name ++ " " ++ cols ++ " " ++ ";".intercalate (sorted.map (·.2))
+
+def hasDup : List Bytes → Bool
+  | [] => false
+  | x :: xs => xs.contains x || hasDup xs
+
+def showStatus : Status → String
+  | .ok => "204" | .parseErr => "400" | .partialErr => "400partial" | .failed => "500"
+  | .dbRequired => "400db" | .notFound => "404"
+
+def mstLe (a b : Mst) : Bool := !(bytesLt b.name a.name)
+
+/-- `e2e <prec>:<body>;…` — the requests against an empty catalogue (block size and line limit
+of the default configuration), then the dump of every measurement. -/
+def runE2E (reqs : List (Bytes × Bytes)) : String :=
+  let step := fun (acc : Option (Db × List Status)) (q : Bytes × Bytes) =>
+    match acc with
+    | none => none
+    | some (db, sts) =>
+      match serveWrite growExact db (multiplierOf q.1) 65536 1048576 q.2 with
+      | none => none
+      | some (db', st) => some (db', sts ++ [st])
+  match reqs.foldl step (some ([], [])) with
+  | none => "unsupported"
+  | some (db, sts) =>
+    if db.any (fun m => hasDup ((columns m).map fun c => jsonText c.1)) then "skip"
+    else
+      let tables := (db.mergeSort mstLe).map showTable
+      "st=" ++ ",".intercalate (sts.map showStatus) ++ " | " ++ " | ".intercalate tables
+
+def parseReqs (s : String) : Option (List (Bytes × Bytes)) :=
+  (s.splitOn ";").mapM fun part =>
+    match part.splitOn ":" with
+    | [p, b] => do
+      let p ← hexDecode p
+      let b ← hexDecode b
+      pure (p, b)
+    | _ => none
+
+def parseParams (s : String) : Option (List (Bytes × Bytes)) :=
+  if s == "-" then some [] else
+  (s.splitOn "&").mapM fun part =>
+    match part.splitOn "=" with
+    | [k, v] => do
+      let k ← hexDecode k
+      let v ← hexDecode v
+      pure (k, v)
+    | _ => none
+
+def catalogueDatabases : List Bytes := [[100, 98, 48], [114, 112, 48]]   -- "db0", "rp0"
+
+/-- `req …` — the handler with a recording points writer. -/
+def runReq (v2 : Bool) (ps : List (Bytes × Bytes)) (blk : Nat) (body : Bytes) : String :=
+  match requestTarget catalogueDatabases v2 ps with
+  | .inl st => showStatus st ++ " nocall"
+  | .inr (d, rp, mult) =>
+    -- the rows of all blocks together do not depend on where the body is cut when every line is
+    -- valid (the only bodies the harness spreads over several blocks): one block here
+    let (blocks, err) := bodyBlocks growExact (max blk (body.length + 1)) 1048576 [] body
+    let results := blocks.map (processBlock mult)
+    let bad := err.isSome || results.any fun r => match r with | .error _ => true | .ok _ => false
+    let oks := results.filterMap fun r => match r with | .error _ => none | .ok rows => some rows
+    let st := if bad then "400" else "204"
+    if oks.isEmpty then st ++ " nocall"
+    else
+      let rows := (oks.flatten.map showStored).mergeSort leStr
+      st ++ " db=" ++ hexEncode d ++ " rp=" ++ hexEncode rp ++
+        (if rows.isEmpty then "" else " " ++ " | ".intercalate rows)
+
+def runSplitOp (blk maxLine : Nat) (caps : List Nat) (body : Bytes) : String :=
+  let (blocks, err) := bodyBlocks growExact blk maxLine caps body
+  " ".intercalate ("blocks" :: blocks.map hexEncode) ++
+    (match err with
+     | none => ""
+     | some .tooLong => " err toolong"
+     | some .fuel => " err fuel"
+     | some .unknownGrowth => " err unknown-growth")
+
+/-- one op; the state is the answer of the last `e2e` op (for `again`). -/
+def step (last : String) (line : String) : String × String :=
   match (line.trimAscii.toString.splitOn " ").filter (· ≠ "") with
   | ["batch", prec, body] =>
     match hexDecode prec, hexDecode body with
     | some p, some b =>
       match processBlock (multiplierOf p) b with
-      | .error e => "err " ++ showErr e
-      | .ok rows => if rows.isEmpty then "ok" else "ok " ++ " | ".intercalate (rows.map showStored)
-    | _, _ => "bad-op"
-  | _ => "bad-op"
+      | .error e => (last, "err " ++ showErr e)
+      | .ok rows => (last, if rows.isEmpty then "ok" else "ok " ++ " | ".intercalate (rows.map showStored))
+    | _, _ => (last, "bad-op")
+  | ["e2e", reqs] =>
+    match parseReqs reqs with
+    | some rs => let a := runE2E rs; (a, a)
+    | none => (last, "bad-op")
+  | ["again", _] => (last, last)
+  | ["req", v2, ps, blk, _gz, body] =>
+    match parseParams ps, blk.toNat?, hexDecode body with
+    | some ps, some blk, some b => (last, runReq (v2 == "1") ps blk b)
+    | _, _, _ => (last, "bad-op")
+  | ["split", blk, maxLine, caps, body] =>
+    match blk.toNat?, maxLine.toNat?, (caps.splitOn ",").mapM String.toNat?, hexDecode body with
+    | some blk, some ml, some caps, some b => (last, runSplitOp blk ml caps b)
+    | _, _, _, _ => (last, "bad-op")
+  | "note" :: _ => (last, "n/a")
+  | _ => (last, "bad-op")
 
-partial def loop (h : IO.FS.Stream) (out : IO.FS.Stream) : IO Unit := do
+partial def loop (h : IO.FS.Stream) (out : IO.FS.Stream) (last : String) : IO Unit := do
   let line ← h.getLine
   if line.isEmpty then return ()
-  out.putStrLn (step line)
-  loop h out
+  let (last', ans) := step last line
+  out.putStrLn ans
+  loop h out last'
 
 def main : IO Unit := do
-  loop (← IO.getStdin) (← IO.getStdout)
+  loop (← IO.getStdin) (← IO.getStdout) ""
 
 end OG.C06
 
